@@ -239,7 +239,16 @@ Inductive op :=
                              own goroutine, while the consumer of Ch() is busy (nobody receives) *)
 | ODrain                  (* the consumer catches up: it receives until nothing arrives any more and handles
                              every string it receives like hook.Manager.HandleScheduleEvent *)
-| OStop.                  (* sm.Stop(): the manager's context is cancelled *)
+| OStop                   (* sm.Stop(): the manager's context is cancelled *)
+| OSmStart.               (* sm.Start() (schedule_manager.go:118-124): sm.cron.Start() - the cron library's runner of
+                             THIS manager starts looking at the clock - and a goroutine that waits for the context.
+                             Neither Entries nor the runner's entries nor its nextID are touched: whatever was
+                             registered before (the operator starts the main queue, whose EnableScheduleBindings
+                             tasks call Add, BEFORE ScheduleManager.Start()) is what the running scheduler fires,
+                             under the entry ids Entries remembers; Add / Remove afterwards go to the same runner
+                             (cron.go: through its add / remove channels instead of directly).  The running
+                             runner keeps its entries sorted by next activation time; the harness lists them by
+                             entry id, i.e. in the order of registration ([cron] here: C11_StartProofs.cron_ids_increase) *)
 
 (* [i_hooks]: the schedule bindings of each hook (hook h = position h, from 0);
    [i_invalid]: the crontab strings cron.Parse rejects (oracle: the real parser, asked by the harness);
@@ -323,6 +332,7 @@ Definition sys_step (i : input) (s : sys) (o : op) : sys * (list (bool * list in
       let '(r, k) := ch_drain_all (s_ch s) in
       (with_ch s k, (tick_all r (s_links s), r))
   | OStop => (mkSys (s_links s) (s_sm s) (s_ch s) true, ([], []))
+  | OSmStart => (s, ([], []))                           (* sm.cron.Start(): same runner, same entries, same ids *)
   end.
 
 Definition observe (i : input) (s : sys) (f : list (bool * list info) * list ct) : obs :=
